@@ -83,7 +83,7 @@ func (c *Choices) Intn(n int) int {
 	} else {
 		v = c.rng.Intn(n)
 	}
-	c.Rec = append(c.Rec, uint32(v))
+	c.record(uint32(v))
 	return v
 }
 
@@ -104,7 +104,7 @@ func (c *Choices) Pick(n int, gen func(r *RNG) int) int {
 			v = 0
 		}
 	}
-	c.Rec = append(c.Rec, uint32(v))
+	c.record(uint32(v))
 	return v
 }
 
@@ -163,6 +163,20 @@ func (c *Choices) Raw() uint32 {
 	} else {
 		v = uint32(c.rng.Next())
 	}
-	c.Rec = append(c.Rec, v)
+	c.record(v)
 	return v
+}
+
+// Overhead is the number of heap bytes the simulator has allocated for its own
+// bookkeeping (the answer record, the trace, waiter records), as far as it keeps
+// count: oracles that meter the allocations of the code under test subtract it.
+var Overhead uint64
+
+//go:norace
+func (c *Choices) record(v uint32) {
+	before := cap(c.Rec)
+	c.Rec = append(c.Rec, v)
+	if n := cap(c.Rec); n != before {
+		Overhead += uint64(n) * 4
+	}
 }
